@@ -232,3 +232,141 @@ func VH_C03N() {
 	vAssert(vFileWrites(1) == cnt(want, vWStdout), "C03: New(...): stdout iff selected")
 	vAssert(vFileWrites(2) == cnt(want, vWStderr), "C03: New(...): stderr iff selected")
 }
+
+// VH_C03I: the inductive form. The writer configuration is built directly in
+// the dualWriter fields from an arbitrary pre-state over the pool (lists of
+// length <= 2, members wrapped exactly as the public API wraps them, which
+// is the representation invariant), then ONE arbitrary operation is applied
+// and a probe record must reach exactly the writers of the model's
+// post-state. One step from every state covers histories of any length.
+func VH_C03I() {
+	vProduction()
+	os.Stdout = vFile(1)
+	os.Stderr = vFile(2)
+	defaultWriter = newDualWriter()
+	rec := &vRec{}
+	ls := &recLS{id: 3, r: rec}
+	pool := []io.Writer{&recW{0, rec}, &recW{1, rec}, &recLW{2, rec}, ls}
+	wrap := func(w int) LogWriter {
+		if lw, ok := pool[w].(LogWriter); ok {
+			return lw
+		}
+		return &logwr{pool[w]}
+	}
+	pick := func(max int) (ids []int, ws LWs) {
+		for n := vChoose(max + 1); n > 0; n-- {
+			w := vChoose(len(pool))
+			ids = append(ids, w)
+			ws = append(ws, wrap(w))
+		}
+		return
+	}
+	lg := New("x").(*logimp).Entry
+	lg.SetColorMode(false)
+	lg.writer = &dualWriter{}
+	cfg := vCfg{leveled: map[Level][]int{}}
+	cfg.normal, lg.writer.Normal = pick(2)
+	cfg.errw, lg.writer.Error = pick(1)
+	levels := []Level{InfoLevel, ErrorLevel}
+	if vBool() {
+		ids, ws := pick(1)
+		if len(ids) > 0 {
+			lg.writer.leveled = map[Level]LWs{InfoLevel: ws}
+			cfg.leveled[InfoLevel] = ids
+		}
+	}
+	op := vChoose(11)
+	w := -1
+	var wr io.Writer
+	if op <= 7 {
+		w = vChoose(len(pool)+1) - 1
+		if w >= 0 {
+			wr = pool[w]
+		}
+	}
+	var l Level
+	if op >= 6 && op <= 8 {
+		l = levels[vChoose(2)]
+	}
+	switch op {
+	case 0:
+		lg.SetWriter(wr)
+		if w >= 0 {
+			cfg.normal = []int{w}
+		}
+	case 1:
+		lg.AddWriter(wr)
+		if w >= 0 {
+			cfg.normal = append(cfg.normal, w)
+		}
+	case 2:
+		lg.RemoveWriter(wr)
+		if w >= 0 {
+			cfg.normal = vDel(cfg.normal, w)
+		}
+	case 3:
+		lg.SetErrorWriter(wr)
+		if w >= 0 {
+			cfg.errw = []int{w}
+		}
+	case 4:
+		lg.AddErrorWriter(wr)
+		if w >= 0 {
+			cfg.errw = append(cfg.errw, w)
+		}
+	case 5:
+		lg.RemoveErrorWriter(wr)
+		if w >= 0 {
+			cfg.errw = vDel(cfg.errw, w)
+		}
+	case 6:
+		lg.AddLevelWriter(l, wr)
+		if w >= 0 {
+			cfg.leveled[l] = append(cfg.leveled[l], w)
+		}
+	case 7:
+		lg.RemoveLevelWriter(l, wr)
+		if w >= 0 {
+			cfg.leveled[l] = vDel(cfg.leveled[l], w)
+		}
+	case 8:
+		lg.ResetLevelWriter(l)
+		delete(cfg.leveled, l)
+	case 9:
+		lg.ResetLevelWriters()
+		cfg.leveled = map[Level][]int{}
+	case 10:
+		lg.ResetWriters()
+		cfg = vCfg{normal: []int{vWStdout}, errw: []int{vWStderr}, leveled: map[Level][]int{}}
+	}
+	r := []Level{InfoLevel, ErrorLevel, DebugLevel, WarnLevel}[vChoose(4)]
+	var want []int
+	switch {
+	case len(cfg.leveled[r]) > 0:
+		want = cfg.leveled[r]
+	case vErrorClass(r, 0, false):
+		want = cfg.errw
+	default:
+		want = cfg.normal
+	}
+	lg.WriteThru(vCtx, r, vTime0(), 0, "m", nil)
+	vCover("C03I:probed")
+	cnt := func(xs []int, w int) int {
+		n := 0
+		for _, x := range xs {
+			if x == w {
+				n++
+			}
+		}
+		return n
+	}
+	for w := 0; w < len(pool); w++ {
+		vAssert(rec.count(w) == cnt(want, w), "C03: one operation from an arbitrary configuration gives the denoted configuration")
+	}
+	vAssert(vFileWrites(1) == cnt(want, vWStdout) && vFileWrites(2) == cnt(want, vWStderr), "C03: defaults only after a reset")
+	for _, e := range rec.evs {
+		if e.W == 3 {
+			vAssert(e.HasLvl && e.Lvl == r, "C03: a destination that asks for the severity is told it immediately before the Write")
+		}
+	}
+}
